@@ -125,6 +125,8 @@ def main(tier):
     raidlayout.check(rep, 4)
     import baseloops
     baseloops.check(rep, 'RAID', ['xor_gen_base', 'pq_gen_base'], 4)
+    import stridecover
+    stridecover.check(rep, 'RAID', {'raid_xor_gen', 'raid_pq_gen', 'raid_xor_check', 'raid_pq_check'}, 80)
     return rep.finish()
 
 
